@@ -220,9 +220,24 @@ def check_inits(ctx):
             ctx.violation(rule, (ci.file, cname), '%s.init' % cname, 'no init', ci.node.lineno, clause='b')
             continue
         ctx.unit('functions')
-        w = repo.walker(inline_depth=ctx.depth, max_paths=ctx.max_paths)
         pk = packet_param(fi, None)
-        for p in w.paths(fi.node, cls=ci):
+        # what _compile computes for init to use (a clone function chosen once, ...) is read through
+        # its definition, once per way _compile can define it
+        reads = {n_.attr for n_ in ast.walk(fi.node) if isinstance(n_, ast.Attribute) and isinstance(n_.value, ast.Name) and n_.value.id == 'self' and isinstance(n_.ctx, ast.Load)}
+        heaps, seen_h = [], set()
+        for s_ in table[cname][1]:
+            alts = repo.strategy_alternatives(s_, reads - {'default', 'field_name', 'prototype'})
+            for h_ in (alts if alts is not None else [{}]):
+                key_ = tuple(sorted((k, canon(v)) for k, v in h_.items()))
+                if key_ not in seen_h:
+                    seen_h.add(key_)
+                    heaps.append(h_)
+        all_paths = []
+        for h_ in heaps or [{}]:
+            w = repo.walker(inline_depth=ctx.depth, max_paths=ctx.max_paths)
+            w.const_heap = h_
+            all_paths.extend(w.paths(fi.node, cls=ci))
+        for p in all_paths:
             if p.raises():
                 continue
             n += 1
